@@ -1,4 +1,7 @@
 import ServlinVerif.Props.C06
+import ServlinVerif.Props.C05
 open Servlin.C06
 #print axioms C08_prefix
 #print axioms C08_source_fault
+#print axioms Servlin.C05.C08_conn
+#print axioms Servlin.C05.C05_nothing_after_shutdown
